@@ -1,0 +1,69 @@
+//! Verification trace points (feature `verif-hooks` only).
+//!
+//! Appends one JSON object per event to the file named by the environment
+//! variable `SKA_VERIF_TRACE` (nothing happens when it is unset). Events carry a
+//! per-process sequence number taken under the same mutex that protects the
+//! write, so their order is well defined without wall-clock time.
+
+use std::io::Write;
+use std::sync::Mutex;
+
+static STATE: Mutex<(u64, u64)> = Mutex::new((0, 0)); // (sequence number, pool initialisation attempts)
+
+fn emit(kind: &str, body: String, is_pool_init: bool) {
+    let Ok(path) = std::env::var("SKA_VERIF_TRACE") else {
+        return;
+    };
+    let mut st = STATE.lock().unwrap();
+    st.0 += 1;
+    let line = format!(
+        "{{\"ev\":\"{}\",\"pid\":{},\"seq\":{},\"prior_inits\":{},{}}}\n",
+        kind,
+        std::process::id(),
+        st.0,
+        st.1,
+        body
+    );
+    if is_pool_init {
+        st.1 += 1;
+    }
+    if let Ok(mut f) = std::fs::OpenOptions::new()
+        .create(true)
+        .append(true)
+        .open(path)
+    {
+        let _ = f.write_all(line.as_bytes());
+    }
+}
+
+/// About to configure the global rayon pool at `site` with `threads` threads
+pub fn pool_init(site: &str, threads: usize) {
+    emit(
+        "pool.init",
+        format!("\"site\":\"{site}\",\"threads\":{threads}"),
+        true,
+    );
+}
+
+/// The pool configuration at `site` returned (the call did not abort)
+pub fn pool_done(site: &str) {
+    emit("pool.done", format!("\"site\":\"{site}\""), false);
+}
+
+/// A serial run of appends over samples `offset .. offset + n` of `total`
+pub fn leaf(offset: usize, n: usize, total: usize) {
+    emit(
+        "par.leaf",
+        format!("\"offset\":{offset},\"n\":{n},\"total\":{total}"),
+        false,
+    );
+}
+
+/// Depth of the recursive split chosen for `total` samples and `threads` threads
+pub fn split(total: usize, threads: usize, depth: usize) {
+    emit(
+        "par.split",
+        format!("\"total\":{total},\"threads\":{threads},\"depth\":{depth}"),
+        false,
+    );
+}
